@@ -51,6 +51,10 @@ def scenarios(tier):
         L.append((SC.scn("fan3-j3", w["fan3"], ["redo --no-log -j3 top"], visible=VIS), 2))
     L.append((SC.scn("csum-shared-rebuild-j2", w["csum-shared"], ["redo --no-log -j2 top"],
                      setup=[["ifchange", ["top"]], ["edit", "s", "2"]], visible=VIS), 1 if q else 2))
+    # the shared checksummed node is rebuilt with an UNCHANGED checksum (edit 0 -> 1 is projected away): the other job may
+    # evaluate its dependent between the node's redo-stamp and the recording of the node
+    L.append((SC.scn("csum-shared-unchanged-j2", w["csum-shared"], ["redo-ifchange top"], jobserver=2,
+                     setup=[["ifchange", ["top"]], ["edit", "s", "1"]], visible=VIS), 1 if q else 2))
     L.append((SC.scn("oob-shared-rebuild-j2", w["oobshare"], ["redo --no-log -j2 all"],
                      setup=[["ifchange", ["all"]], ["edit", "s", "2"], ["edit", "qs", "1"]], visible=VIS), 1 if q else 2))
     L.append((SC.scn("always-shared-j2", w["always-shared"], ["redo --no-log -j2 top"], visible=VIS), 1 if q else 2))
